@@ -455,18 +455,23 @@ func (c *Ctx) decodedOrigin(v ssa.Value, fwd map[*ssa.Function]map[int]bool, cac
 		cache[f] = t
 		return t
 	}
-	sl.Visit(v, func(x ssa.Value) bool {
-		if found != "" {
-			return false
+	note := func(name string, b int) {
+		if b > bits {
+			found, bits = name, b
+		} else if found == "" {
+			found = name
 		}
+	}
+	sl.Visit(v, func(x ssa.Value) bool {
 		switch y := x.(type) {
 		case *ssa.Call:
+			if bi, ok := y.Call.Value.(*ssa.Builtin); ok && (bi.Name() == "len" || bi.Name() == "cap") {
+				return false // the length of data that already exists is not a decoded integer
+			}
 			if f := y.Call.StaticCallee(); f != nil && f.Pkg != nil && f.Pkg.Pkg.Path() == "encoding/binary" && strings.HasPrefix(f.Name(), "Uint") {
-				found = "binary." + f.Name()
-				bits = basicBitsOf(y.Type())
+				note("binary."+f.Name(), basicBitsOf(y.Type()))
 				return false
 			}
-			// table of constants
 			return true
 		case *ssa.Lookup:
 			if isConstTable(c, y.X) {
@@ -474,18 +479,20 @@ func (c *Ctx) decodedOrigin(v ssa.Value, fwd map[*ssa.Function]map[int]bool, cac
 			}
 		case *ssa.Alloc:
 			if y.Parent() != nil && targets(y.Parent())[y] {
-				found = "binary.Read into " + y.Comment
+				b := 64
 				if pt, ok := y.Type().(*types.Pointer); ok {
-					bits = basicBitsOf(pt.Elem())
+					b = basicBitsOf(pt.Elem())
 				}
+				note("binary.Read into "+y.Comment, b)
 				return false
 			}
 		case *ssa.FieldAddr:
 			if y.Parent() != nil && targets(y.Parent())[y] {
-				found = "binary.Read into field " + flow.FieldName(y)
+				b := 64
 				if pt, ok := y.Type().(*types.Pointer); ok {
-					bits = basicBitsOf(pt.Elem())
+					b = basicBitsOf(pt.Elem())
 				}
+				note("binary.Read into field "+flow.FieldName(y), b)
 				return false
 			}
 			// fields of structs filled by decoders: any store of a decoded value into the same field
@@ -606,8 +613,11 @@ func (c *Ctx) allocRule(rule string, fns []*ssa.Function, V map[*ssa.Function]bo
 						continue
 					}
 					n++
-					origin, _, decoded := c.decodedOrigin(s.size, fwd, cache)
+					origin, dbits, decoded := c.decodedOrigin(s.size, fwd, cache)
 					bits := basicBitsOf(stripConv(s.size).Type())
+					if dbits > 0 && dbits < bits {
+						bits = dbits
+					}
 					construct := load.FuncName(f) + ":" + s.kind + " sized by " + strings.TrimPrefix(origin, "binary.")
 					if !decoded {
 						c.S.OK(rule, load.FuncName(f)+":"+s.kind+"@"+shortPos(c, s.instr), c.pos(s.instr.Pos()), "size does not derive from a decoded integer", true)
@@ -752,6 +762,53 @@ func (c *Ctx) parsedBefore(call *ssa.Call) bool {
 		return false
 	}
 	ap := flow.PathOf(call.Call.Args[0])
+	// validated by a sibling step of the caller: the operand is field F of parameter P;
+	// every caller first calls (with its error checked) a function that applies the
+	// fallible parser to field F of the same object and returns its error.
+	if p, ok := ap.Root.(*ssa.Parameter); ok && len(ap.Fields) == 1 {
+		pidx := -1
+		for i, q := range f.Params {
+			if q == p {
+				pidx = i
+			}
+		}
+		node := c.P.CallGraph().Nodes[f]
+		if pidx >= 0 && node != nil && len(node.In) > 0 {
+			all := true
+			for _, e := range node.In {
+				k := e.Caller.Func
+				if e.Site == nil || !load.FuncInRepo(k) || c.isTestFunc(k) {
+					continue
+				}
+				obj := e.Site.Common().Args[pidx]
+				okCaller := false
+				for _, vc := range callsIn(k, func(cc ssa.CallInstruction) bool {
+					v := cc.Common().StaticCallee()
+					return v != nil && v != f && load.FuncInRepo(v) && errIndex(v.Signature) >= 0
+				}) {
+					v := vc.Common().StaticCallee()
+					passes := false
+					for _, a := range vc.Common().Args {
+						if a == obj {
+							passes = true
+						}
+					}
+					if !passes || !c.validatesField(v, want, cal, ap.Fields[0]) {
+						continue
+					}
+					if cv := vc.Value(); cv != nil && errKnownNil(e.Site.Block(), cv) {
+						okCaller = true
+					}
+				}
+				if !okCaller {
+					all = false
+				}
+			}
+			if all {
+				return true
+			}
+		}
+	}
 	for _, other := range callsIn(f, func(cc ssa.CallInstruction) bool {
 		oc := cc.Common().StaticCallee()
 		return oc != nil && oc.Name() == want && oc.Pkg == cal.Pkg
@@ -767,6 +824,44 @@ func (c *Ctx) parsedBefore(call *ssa.Call) bool {
 		for _, r := range nonDebugRefs(ov) {
 			if ex, ok := r.(*ssa.Extract); ok && ex.Index == 1 && errKnownNil(call.Block(), ex) {
 				return true
+			}
+		}
+	}
+	return false
+}
+
+// validatesField: v applies the fallible parser `want` (same package as the Must
+// helper) to field `field` of one of its parameters and returns a non-nil error
+// when it fails.
+func (c *Ctx) validatesField(v *ssa.Function, want string, must *ssa.Function, field string) bool {
+	for _, call := range callsIn(v, func(cc ssa.CallInstruction) bool {
+		oc := cc.Common().StaticCallee()
+		return oc != nil && oc.Name() == want && oc.Pkg == must.Pkg
+	}) {
+		ap := flow.PathOf(call.Common().Args[0])
+		if _, isParam := ap.Root.(*ssa.Parameter); !isParam || len(ap.Fields) != 1 || ap.Fields[0] != field {
+			continue
+		}
+		cv := call.Value()
+		if cv == nil {
+			continue
+		}
+		for _, r := range nonDebugRefs(cv) {
+			ex, ok := r.(*ssa.Extract)
+			if !ok || ex.Index != 1 {
+				continue
+			}
+			// the non-nil edge of the error leads to an error return
+			for _, u := range nonDebugRefs(ex) {
+				bo, ok := u.(*ssa.BinOp)
+				if !ok || bo.Op != token.NEQ || !isNilK(bo.Y) {
+					continue
+				}
+				for _, u2 := range nonDebugRefs(bo) {
+					if iff, ok := u2.(*ssa.If); ok && isErrorExit(iff.Block().Succs[0]) {
+						return true
+					}
+				}
 			}
 		}
 	}
